@@ -321,6 +321,34 @@ func pageCopyRules(c *Ctx, rule string, lockOnly bool) {
 				c.requireGuard(rule, fn, Site{call, "use of dense page number (" + calleeName(call) + ")"}, cmpFact(pg, token.NEQ, lockP, "pgno != ltx.LockPgno(pageSize)"))
 			}
 			c.floor(rule, nUse, 1, "uses of the dense page number in "+name)
+			// the loop is left only when pgno > commit (or through an error return): the lock page is skipped, never a stop
+			if nl := innermostLoopOf(loops, cl.Latch); nl != nil {
+				for b := range nl.Blocks {
+					ifi, isIf := lastInstr(b).(*ssa.If)
+					for i, sc := range b.Succs {
+						if nl.Blocks[sc] {
+							continue
+						}
+						// error exits are fine
+						onlyErr := true
+						rr := reachable(fn, sc, nil)
+						for _, ret := range successReturns(fn) {
+							if rr[ret.Block()] {
+								onlyErr = false
+							}
+						}
+						if onlyErr {
+							continue
+						}
+						okExit := false
+						if isIf {
+							okExit = cmpFact(pg, token.GTR, vParam("commit"), "").holds(edgeFact(ifi, i))
+						}
+						c.check(okExit, rule, fmt.Sprintf("%s: the dense page loop (header block %d) is left only when pgno > commit", name, cl.Header.Index), c.pos(lastInstr(b)),
+							"exit edge carries pgno > commit", "the loop can stop before the committed size is reached (e.g. at the lock page instead of skipping it): pages beyond it are silently missing from the LTX file")
+					}
+				}
+			}
 			if lockOnly {
 				continue
 			}
